@@ -294,9 +294,25 @@ def dec_case(rng, m):
 
 def generate(rng, tier):
     thorough = tier == 'thorough'
-    for _ in range(6000 if thorough else 1500):
+    for i in range(6000 if thorough else 1500):
         m, tag = rand_msg(rng)
         yield rt_case(m, tag)
+        if i % 4 == 0:
+            # the same object serialised again after the library (or the application) changed it: the sequence number is
+            # assigned at send time, the correlator copies tracking data onto responses, a status is set, a parameter added
+            from aiosmpplib.state import SmppCommandStatus, OptionalParam
+            d = m.__dict__
+            if 'sequence_num' in d:
+                m.sequence_num = (m.sequence_num + 1 + rng.randrange(1000)) % 0x7FFFFFFF
+            if 'log_id' in d:
+                m.log_id = 'again%d' % i
+                m.extra_data = 'x%d' % i
+            # (the command_status of a request is null in SMPP 3.4 and not a constructor argument of the request classes)
+            if 'command_status' in d and (type(m).__name__.endswith('Resp') or type(m).__name__ == 'GenericNack') and rng.random() < 0.5:
+                m.command_status = rng.choice(list(SmppCommandStatus))
+            if isinstance(d.get('optional_params'), list) and rng.random() < 0.3:
+                m.optional_params.append(OptionalParam(0x0204, rng.randrange(65536)))
+            yield rt_case(m, tag + '-again')
     for _ in range(2500 if thorough else 600):
         m, _t = rand_msg(rng)
         yield dec_case(rng, m)
